@@ -142,7 +142,7 @@ def r202(chk, m):
 
 def r203(chk, m):
     R = chk.rule('R20.3', 'keys: both call sites use the renderer name from the same configuration entry; the own job file is skipped on '
-                 'restore; restore files every label under the key it was saved with, in the table of this renderer only', 5)
+                 'restore; restore files every label under the key it was saved with, in the table of this renderer only', 4)
     cp = m.module('plasTeX.Compile').functions.get('parse')
     rr = m.func('plasTeX.Renderers', 'Renderer.render')
     chk.analysed(cp)
@@ -155,9 +155,8 @@ def r203(chk, m):
     c2 = any(M.call_name(c).endswith('context.persist') and [text(x) for x in c.args] == ['pauxname', 'rname'] for c in M.calls_in(rr.node))
     chk.verdict(R, 'renderer key from the same configuration entry', ok and c1 and c2,
                 'restore is called with %s and persist with %s' % (a, b), chk.where(cp))
-    skip = [n for n in M.walk_no_nested(cp.node) if isinstance(n, ast.If) and 'os.path.basename(fname) == pauxname' in text(n.test)]
-    chk.verdict(R, 'own job file skipped on restore', len(skip) == 1 and isinstance(skip[0].body[0], ast.Continue),
-                'Compile.parse must skip its own .paux file', chk.where(cp))
+    from . import shared
+    shared.paux_rules(chk, m, 'R20.5')
     Context = m.cls('plasTeX.Context', 'Context')
     fn = m.find_method(Context, 'restore')
     loops = [n for n in ast.walk(fn.node) if isinstance(n, ast.For) and 'data.items()' in text(n.iter)]
